@@ -6,6 +6,7 @@ package main
 import (
 	"fmt"
 	"strings"
+	"sync/atomic"
 	"time"
 
 	kproto "github.com/kardiachain/go-kardia/proto/kardiachain/types"
@@ -345,8 +346,8 @@ func commitMatrix(vecIdx int, pw []int64, nKinds int) []commitViol {
 				r.Add("commit_cases_signed_exactly_two_thirds", 1)
 			}
 		}
-		r.Add("commit_flag_"+variant, 1)
-		if r.WantSample() && implAccept && variant == "right" && n >= 3 && verdict.counted != full {
+		r.Add("commit_variant_"+variant, 1)
+		if implAccept && variant == "right" && n >= 3 && verdict.counted != full && atomic.AddInt64(&commitSamples, 1) <= 2 {
 			r.Sample(map[string]interface{}{"kind": "commit-matrix", "vector": pw, "flags": flagNames(flags), "variant": variant,
 				"impl_accepts": implAccept, "reference_accepts": verdict.accept, "counting_validators": maskStr(verdict.counted, n)})
 		}
@@ -363,5 +364,7 @@ func commitMatrix(vecIdx int, pw []int64, nKinds int) []commitViol {
 	}
 	return out
 }
+
+var commitSamples int64
 
 func lowestBit(m int) int { return m & -m }
